@@ -1,0 +1,94 @@
+//go:build verif
+
+package rtpmpeg1audio
+
+// Contracts checked by /verif/govc (see /verif/DESIGN.md). Comment-only file.
+
+//@ func packetCount
+//@   requires avail > 0 && le >= 0
+//@   ensures ret >= 0 && (ret-1)*avail < le && le <= ret*avail
+//@   modifies nothing
+
+// lenagg(s, n): size of a payload aggregating the first n frames of s (4-byte header).
+//@ spec nn(x int) int = ite(x >= 0, x, 0)
+//@ ufun lenagg(s [][]byte, n int) int = ite(n <= 0, 4, lenagg(s, n-1) + nn(len(s[n-1])))
+//@   lemma[n; t [][]byte] (forall k :: 0 <= k && k < n ==> len(s[k]) == len(t[k])) ==> lenagg(s, n) == lenagg(t, n)
+//@   trigger lenagg(s, n)
+//@   trigger lenagg(t, n)
+//@   lemma[n; j int] 0 <= j && j <= n ==> lenagg(s, j) <= lenagg(s, n) && lenagg(s, j) >= 4
+//@   trigger lenagg(s, j)
+//@   trigger lenagg(s, n)
+
+//@ func lenAggregated
+//@   ensures ret == lenagg(frames, len(frames)) + len(frame)
+//@   modifies nothing
+//@   loop 1
+//@     invariant 0 <= _i && _i <= len(frames) && n == lenagg(frames, _i) + len(frame)
+
+//@ func (e *Encoder) writeAggregated
+//@   opt frame-tag=C06
+//@   requires e.SSRC != nil && len(frames) >= 1 && lenagg(frames, len(frames)) <= 65535
+//@   ensures[C06] err == nil && len(ret) == 1 && ret[0] != nil && fresh(ret) && fresh(ret[0])
+//@   ensures[C06] len(ret[0].Payload) == lenagg(frames, len(frames))
+//@   ensures[C06] ret[0].SequenceNumber == old(e.sequenceNumber) && e.sequenceNumber == old(e.sequenceNumber) + 1
+//@   ensures[C06] ret[0].Marker && ret[0].PayloadType == payloadType && ret[0].SSRC == *e.SSRC
+//@   modifies e.sequenceNumber, fresh
+
+//@ func (e *Encoder) writeFragmented
+//@   opt frame-tag=C06
+//@   requires e.SSRC != nil && 5 <= e.PayloadMaxSize && e.PayloadMaxSize <= 65535 && len(frame) >= 1
+//@   ensures[C06] err == nil && len(ret) >= 1 && fresh(ret)
+//@   ensures[C06] forall j :: 0 <= j && j < len(ret) ==> ret[j] != nil && fresh(ret[j]) && len(ret[j].Payload) <= e.PayloadMaxSize
+//@   ensures[C06] forall j :: 0 <= j && j < len(ret) ==> ret[j].SequenceNumber == old(e.sequenceNumber) + uint16(j)
+//@   ensures[C06] e.sequenceNumber == old(e.sequenceNumber) + uint16(len(ret))
+//@   ensures[C06] forall j :: 0 <= j && j < len(ret) ==> ret[j].Marker
+//@   ensures[C06] forall j :: 0 <= j && j < len(ret) ==> ret[j].PayloadType == payloadType && ret[j].SSRC == *e.SSRC
+//@   modifies e.sequenceNumber, fresh
+//@   loop 1
+//@     invariant 0 <= i && i <= packetCount && len(ret) == packetCount && packetCount >= 1 && fresh(ret)
+//@     invariant avail == e.PayloadMaxSize - 4 && e.PayloadMaxSize == old(e.PayloadMaxSize) && e.SSRC == old(e.SSRC) && *e.SSRC == old(*e.SSRC)
+//@     invariant i < packetCount ==> pos == i*avail && le == avail
+//@     invariant i == packetCount ==> pos == len(frame)
+//@     invariant (packetCount-1)*avail < len(frame) && len(frame) <= packetCount*avail
+//@     invariant e.sequenceNumber == old(e.sequenceNumber) + uint16(i)
+//@     invariant forall j :: 0 <= j && j < i ==> ret[j] != nil && fresh(ret[j]) && len(ret[j].Payload) <= e.PayloadMaxSize
+//@     invariant forall j :: 0 <= j && j < i ==> ret[j].SequenceNumber == old(e.sequenceNumber) + uint16(j)
+//@     invariant forall j :: 0 <= j && j < i ==> ret[j].Marker
+//@     invariant forall j :: 0 <= j && j < i ==> ret[j].PayloadType == payloadType && ret[j].SSRC == *e.SSRC
+//@     decreases packetCount - i
+
+//@ func (e *Encoder) writeBatch
+//@   opt frame-tag=C06
+//@   requires e.SSRC != nil && 5 <= e.PayloadMaxSize && e.PayloadMaxSize <= 65535 && len(frames) >= 1
+//@   requires forall k :: 0 <= k && k < len(frames) ==> len(frames[k]) >= 1
+//@   requires len(frames) >= 2 ==> lenagg(frames, len(frames)) <= e.PayloadMaxSize
+//@   ensures[C06] err == nil && len(ret) >= 1 && fresh(ret)
+//@   ensures[C06] forall j :: 0 <= j && j < len(ret) ==> ret[j] != nil && fresh(ret[j]) && len(ret[j].Payload) <= e.PayloadMaxSize
+//@   ensures[C06] forall j :: 0 <= j && j < len(ret) ==> ret[j].SequenceNumber == old(e.sequenceNumber) + uint16(j)
+//@   ensures[C06] e.sequenceNumber == old(e.sequenceNumber) + uint16(len(ret))
+//@   ensures[C06] forall j :: 0 <= j && j < len(ret) ==> ret[j].Marker
+//@   ensures[C06] forall j :: 0 <= j && j < len(ret) ==> ret[j].PayloadType == payloadType && ret[j].SSRC == *e.SSRC
+//@   modifies e.sequenceNumber, fresh
+
+// Encode: "frames must contain at least 1 element, each with at least 1 byte".
+//@ func (e *Encoder) Encode
+//@   opt frame-tag=C06
+//@   requires e.SSRC != nil && 5 <= e.PayloadMaxSize && e.PayloadMaxSize <= 65535 && len(frames) >= 1
+//@   requires forall k :: 0 <= k && k < len(frames) ==> len(frames[k]) >= 1
+//@   ensures[C06] err == nil ==> len(ret) >= 1
+//@   ensures[C06] err == nil ==> forall j :: 0 <= j && j < len(ret) ==> ret[j] != nil && len(ret[j].Payload) <= e.PayloadMaxSize
+//@   ensures[C06] err == nil ==> forall j :: 0 <= j && j < len(ret) ==> ret[j].SequenceNumber == old(e.sequenceNumber) + uint16(j)
+//@   ensures[C06] err == nil ==> e.sequenceNumber == old(e.sequenceNumber) + uint16(len(ret))
+//@   ensures[C06] err == nil ==> ret[len(ret)-1].Marker
+//@   ensures[C06] err == nil ==> forall j :: 0 <= j && j < len(ret) ==> ret[j].PayloadType == payloadType && ret[j].SSRC == *e.SSRC
+//@   modifies e.sequenceNumber, fresh
+//@   loop 1
+//@     invariant 0 <= _i && _i <= len(frames) && (_i >= 1 ==> batch != nil)
+//@     invariant batch != nil ==> len(batch) >= 1 && fresh(batch)
+//@     invariant forall k :: 0 <= k && k < len(batch) ==> len(batch[k]) >= 1
+//@     invariant len(batch) >= 2 ==> lenagg(batch, len(batch)) <= e.PayloadMaxSize
+//@     invariant e.sequenceNumber == old(e.sequenceNumber) + uint16(len(rets)) && len(rets) >= 0 && (rets != nil ==> fresh(rets))
+//@     invariant e.SSRC == old(e.SSRC) && e.PayloadMaxSize == old(e.PayloadMaxSize) && *e.SSRC == old(*e.SSRC)
+//@     invariant forall j :: 0 <= j && j < len(rets) ==> rets[j] != nil && fresh(rets[j]) && len(rets[j].Payload) <= e.PayloadMaxSize
+//@     invariant forall j :: 0 <= j && j < len(rets) ==> rets[j].SequenceNumber == old(e.sequenceNumber) + uint16(j)
+//@     invariant forall j :: 0 <= j && j < len(rets) ==> rets[j].PayloadType == payloadType && rets[j].SSRC == *e.SSRC
